@@ -421,4 +421,44 @@ def C05(tier, seed):
     }
 
 
-REGISTRY = {"C01": C01, "C04": C04, "C05": C05, "C06": C06, "C12": C12, "C03": C03, "C02": C02, "C17": C17, "C11": C11, "C20": C20, "C09": C09, "C19": C19, "C18": C18, "C13": C13, "C07": C07, "C14": C14, "C15": C15}
+def rel_stage(part, req, sets, shards=8):
+    return Stage(part, ("Gen_Relate", "Gen_Relate.cfg"), ("Trace_Relate", "Trace_Relate.cfg"),
+                 env={"PART": part, "REL_SETS": sets}, required=req, shards=shards)
+
+
+def C10(tier, seed):
+    producers = ["arith", "geo", "harm", "paired", "unpaired", "proportion_ci", "proportion_ci_z_normal", "quantile"]
+    st = rel_stage("c10", ["C10.kind", "C10.nesting", "C10.one_sided_equals_two_sided", "C10.contains_estimate",
+                           "C10.kind.two", "C10.kind.upper", "C10.kind.lower", "C10.rejected.harm"]
+                   + ["C10.producer." + p for p in producers] + ["C10.one_two." + p for p in producers],
+                   6 if tier == "quick" else 60)
+    st.mc = [("MC_Tables", "MC_Tables.cfg", {}, 1)]
+    return {
+        "stages": [st],
+        "exhaustive": False,
+        "rule": "for each of the seven producers (arithmetic, geometric, harmonic incl. samples whose reciprocal-space interval reaches 0, paired, "
+                "unpaired, proportion Wilson + Wald, quantile ranks) and each input (6 (60) seeded samples x f32/f64; (n,k) grids; n in 4..40 (60) x 4 "
+                "quantiles): one group of 51 calls (3 kinds x 17 levels). The validator carries the table (kind, level) -> bounds and checks on every call: "
+                "kind of the result, nesting with the previous level, one-sided(L) = two-sided(2L-1) (2^-30 relative; exact for ranks), estimate inside.",
+        "assumptions": TLC_TRUST + ["quantile bracketing of the sample-quantile rank is decided by C03"],
+    }
+
+
+def C16(tier, seed):
+    st = rel_stage("c16", ["C16.scale_exact", "C16.scale_rounding", "C16.negation_mirrors", "C16.neg_one_sided", "C16.shift", "C16.reorder",
+                           "C16.reorder.f32", "C16.reorder.f64", "C16.reorder_long_stream.f32", "C16.reorder_long_stream.f64"]
+                   + ["C16.scale." + f for f in ("arith", "paired", "unpaired", "geo", "harm")]
+                   + ["C16.neg." + f for f in ("arith", "paired", "unpaired")] + ["C16.shift." + f for f in ("arith", "paired", "unpaired")],
+                   5 if tier == "quick" else 60)
+    return {
+        "stages": [st],
+        "exhaustive": False,
+        "rule": "5 (60) seeded base samples per producer x f32/f64 x 4 levels x 3 kinds, each with: scaling by 2^k, k in {-40,-7,-1,1,10,60} restricted to "
+                "exponents that avoid overflow/underflow in the type (bit-exact: same mantissa and sign, exponent + k; geometric: rounding allowance), "
+                "negation with the mirrored kind (bit-exact, ends exchanged), shifts {3,-1000,65536}, reorderings (desc, interleave, 2 seeded shuffles); "
+                "every permutation of samples of size 3..5; streams of 10^5 (10^6) observations in four orders for f32 and f64.",
+        "assumptions": TLC_TRUST + ["reordering / shift tolerances: 64 ulp resp. 2^10 u (|b| + |b'| + |shift|) for the generated well-conditioned samples"],
+    }
+
+
+REGISTRY = {"C10": C10, "C16": C16, "C01": C01, "C04": C04, "C05": C05, "C06": C06, "C12": C12, "C03": C03, "C02": C02, "C17": C17, "C11": C11, "C20": C20, "C09": C09, "C19": C19, "C18": C18, "C13": C13, "C07": C07, "C14": C14, "C15": C15}
